@@ -1076,6 +1076,12 @@ pub fn remaining_iovecs(vec: &[libc::iovec], done: usize) -> Vec<libc::iovec> {
     left
 }
 
+/// Forget the cached `SO_SNDTIMEO`/`SO_RCVTIMEO` values of a descriptor that is being closed.
+pub(crate) fn forget_time_limits(fd: c_int) {
+    _ = SEND_TIME_LIMIT.remove(&fd);
+    _ = RECV_TIME_LIMIT.remove(&fd);
+}
+
 pub(crate) fn get_time_limit(tv: &libc::timeval) -> u64 {
     // a negative value accepted by the kernel means "no timeout", never panic on it
     let mut time_limit = u64::try_from(tv.tv_sec)
